@@ -21,6 +21,30 @@ Proof. unfold chk_sub. destruct (Z.leb_spec b a); [|discriminate]. intros [= <-]
 Lemma chk_sub_None a b : chk_sub a b = None -> a < b.
 Proof. unfold chk_sub. destruct (Z.leb_spec b a); [discriminate|]. intros _. lia. Qed.
 
+
+(** ** The generated fee formula is the BOLT 7 one *)
+Lemma compute_fees_bolt7 a f :
+  0 <= a -> 0 <= rf_base_msat f -> 0 <= rf_proportional_millionths f ->
+  compute_fees a f =
+  (if (a * rf_proportional_millionths f <? 2 ^ 64) &&
+      (rf_base_msat f + a * rf_proportional_millionths f / 1000000 <? 2 ^ 64)
+   then Some (rf_base_msat f + a * rf_proportional_millionths f / 1000000) else None).
+Proof.
+  intros _ _ _. unfold compute_fees, opt_bind, chk_mul, chk_add.
+  destruct (a * rf_proportional_millionths f <? 2 ^ 64); [|reflexivity].
+  destruct (rf_base_msat f + a * rf_proportional_millionths f / 1000000 <? 2 ^ 64); reflexivity.
+Qed.
+
+Lemma compute_fees_saturating_bolt7 a f :
+  compute_fees_saturating a f =
+  Z.min (2 ^ 64 - 1)
+    ((if a * rf_proportional_millionths f <? 2 ^ 64
+      then a * rf_proportional_millionths f / 1000000 else 2 ^ 64 - 1) + rf_base_msat f).
+Proof.
+  unfold compute_fees_saturating, sat_add, unwrap_or, option_map, chk_mul.
+  destruct (a * rf_proportional_millionths f <? 2 ^ 64); reflexivity.
+Qed.
+
 (** ** The reversed view *)
 (** hops in processing order (last hop first); [A] = amount carried by the hop processed just
     before, [nxt] = (that amount, that hop's fees) *)
